@@ -492,6 +492,29 @@ func (validateStream) Generate(rng *rand.Rand, tier string, emit func(Case)) {
 			emit(Case{"op": "admit_doc", "doc": docToProto(d), "label": label})
 		}
 	}
+	// boundary of the version rule on device names: every first character around the digit range,
+	// at both device positions, declared as the versions on either side of the rule
+	for _, first := range []string{"/", "0", "1", "5", "8", "9", ":", "a", "_"} {
+		for pos := 0; pos < 2; pos++ {
+			for _, v := range []string{"0.3.0", "0.4.0", "0.5.0"} {
+				names := []string{"plain", "other"}
+				names[pos] = first + "gpu"
+				d := obj()
+				d.set("cdiVersion", jstr(v))
+				d.set("kind", jstr("vendor.com/class"))
+				var devs jarr
+				for _, n := range names {
+					dev, edits := obj(), obj()
+					edits.set("env", jarr{jstr("A=b")})
+					dev.set("name", jstr(n))
+					dev.set("containerEdits", edits)
+					devs = append(devs, dev)
+				}
+				d.set("devices", devs)
+				emit(Case{"op": "admit_doc", "doc": docToProto(d), "label": "digit-name-boundary"})
+			}
+		}
+	}
 	// a few non-object documents
 	for _, d := range []any{nil, jarr{}, jstr("x"), jint(1), true, obj()} {
 		emit(Case{"op": "admit_doc", "doc": docToProto(d), "label": "non-spec-document"})
